@@ -1,5 +1,5 @@
 (* C06 - outbound QoS 1/2 publishes follow the MQTT handshake and report its outcome. *)
-From Poster Require Import Model.Sim Proofs.ClientP Proofs.HandshakeP Proofs.QuotaP Proofs.ResumeP Proofs.WireP Proofs.SimInvP Proofs.SettleP Proofs.RefineP.
+From Poster Require Import Model.Sim Proofs.ClientP Proofs.HandshakeP Proofs.QuotaP Proofs.ResumeP Proofs.WireP Proofs.SimInvP Proofs.SettleP Proofs.RefineP Proofs.OwnP Proofs.OnceP.
 
 (* the first poll of publish(): one request reaches the context, carrying a PUBLISH whose first
    byte is 0x30 | qos<<1 | retain (DUP = 0), fire-and-forget for QoS 0, awaiting PUBACK (type 4)
@@ -139,3 +139,18 @@ Proof.
   split; [eapply FInv_io; [exact H1|exact H2|exact HF]|]. split; [unfold SZs; rewrite H2; exact Hs|].
   vm_compute. repeat split; reflexivity.
 Qed.
+
+(* ---- the handle side over every history: the future's phases only move forward -----------------------------------------------
+   rank: NotStarted 0 < Wait1 1 (PUBLISH requested, awaiting PUBACK / PUBREC) < Wait2 2 (PUBREL requested, awaiting PUBCOMP)
+   < Finished 3 (< 4: future dropped). From ANY state satisfying the reachable-state invariant, over ANY events that do not
+   start the label anew, the rank never decreases. The PUBLISH request is issued exactly on 0 -> 1 (C06_first_poll) and
+   the PUBREL request exactly on 1 -> 2, which happens only on a PUBREC with reason < 0x80 (C06_qos2_pubrec); a failing
+   PUBREC moves to Finished. Hence: at most one PUBLISH and at most one PUBREL request per publish(), the PUBREL only after
+   a successful PUBREC, and none ever after a failing one. *)
+Theorem C06_phases_forward : forall (evs : list event) (s : sys) (i : N), OI s -> Forall (no_restart i) evs ->
+  (prank s i <= prank (final_state s evs) i)%nat.
+Proof. exact phases_forward. Qed.
+Print Assumptions C06_phases_forward.
+Check (eq_refl : prank = fun s i => match alookup i (ops s) with
+  | Some o => match o_phase o with NotStarted => 0%nat | Wait1 => 1%nat | Wait2 => 2%nat | Finished => 3%nat end
+  | None => 4%nat end).
